@@ -3,7 +3,8 @@
     readPackedSymbols) and the proof that it decodes exactly what the sequential
     path (ReadSymbol on the green, red, blue and alpha tables one after the
     other) decodes, whenever the decoder selects it (the four maximal code
-    lengths sum to less than HuffmanPackedBits = 6).
+    lengths sum to less than HuffmanPackedBits = 6; the theorem
+    holds up to a sum of 6, the capacity of the 64-entry table).
 
     [packed_build] transcribes buildPackedTable: for each of the 64 six-bit
     windows the green root-table entry is looked up DIRECTLY (no second-level
@@ -252,7 +253,7 @@ Qed.
 Theorem packed_read_eq_sequential :
   forall lg lr lb la mg mr mb ma tg tr tb ta g r b a w,
   table_of lg mg tg g -> table_of lr mr tr r -> table_of lb mb tb b -> table_of la ma ta a ->
-  mg + mr + mb + ma < 6 -> 0 <= w ->
+  mg + mr + mb + ma <= 6 -> 0 <= w ->
   seq_read tg tr tb ta w = Some (packed_read (packed_build g r b a) w).
 Proof.
   intros lg lr lb la mg mr mb ma tg tr tb ta g r b a w Tg Tr Tb Ta Hsum Hw.
@@ -325,7 +326,7 @@ Qed.
 Corollary packed_read_eq_lut_reads :
   forall lg lr lb la mg mr mb ma tg tr tb ta g r b a w,
   table_of lg mg tg g -> table_of lr mr tr r -> table_of lb mb tb b -> table_of la ma ta a ->
-  mg + mr + mb + ma < 6 -> 0 <= w ->
+  mg + mr + mb + ma <= 6 -> 0 <= w ->
   packed_read (packed_build g r b a) w = seq_read_lut g r b a w.
 Proof.
   intros lg lr lb la mg mr mb ma tg tr tb ta g r b a w Tg Tr Tb Ta Hsum Hw.
